@@ -1314,12 +1314,17 @@ impl Server {
         for cmd_parts in commands_to_execute.iter() {
             let is_select = matches!(cmd_parts.first(), Some(RespFrame::BulkString(Some(name)))
                 if String::from_utf8_lossy(name).to_uppercase() == "SELECT");
+            // CLIENT ID / SETNAME / GETNAME / ... are about the connection that queued them: they run under its id,
+            // not under the dummy id 0 that marks "inside EXEC" for the data commands
+            let is_client = matches!(cmd_parts.first(), Some(RespFrame::BulkString(Some(name))) if name.eq_ignore_ascii_case(b"CLIENT"));
             let outcome = if is_select {
                 let reply = self.handle_select(cmd_parts, conn_id);
                 if let Some(selected) = self.connections.with_connection(conn_id, |conn| conn.db_index) {
                     db_index = selected;
                 }
                 reply
+            } else if is_client {
+                self.process_normal_command(cmd_parts, db_index, conn_id)
             } else {
                 if let (Some(RespFrame::BulkString(Some(name))), Some(RespFrame::BulkString(Some(key)))) = (cmd_parts.get(0), cmd_parts.get(1)) {
                     let name = String::from_utf8_lossy(name).to_uppercase();
